@@ -200,7 +200,8 @@ class ResolverMixin:  # pylint: disable=too-few-public-methods
             override_name = new_objects[obj_name].qualifiers["override"].value
             if isinstance(new_obj, (CIMParameter, CIMProperty)):
                 if new_obj.type == 'reference':
-                    if override_name != obj_name:
+                    if override_name is None or \
+                            override_name.lower() != obj_name.lower():
                         raise CIMError(
                             CIM_ERR_INVALID_PARAMETER,
                             _format("Invalid new_class reference "
